@@ -1,15 +1,15 @@
 #!/bin/bash
 # usage: seedtest.sh <seed-id> [check ids...]   (default: the seed's own property)
-# Applies /verif/seeded/<seed-id>/patch.diff to a scratch worktree of /repo (never /repo itself), runs the
+# Applies ${VERIF_HOME:-/verif}/seeded/<seed-id>/patch.diff to a scratch worktree of /repo (never /repo itself), runs the
 # checks against it with evidence redirected, removes the worktree.
 set -u
 SID=$1; shift
-PROP=$(python3 -c "import json;print(json.load(open('/verif/seeded/$SID/meta.json'))['property'])" 2>/dev/null || echo ${SID%%-*})
+PROP=$(python3 -c "import json;print(json.load(open('${VERIF_HOME:-/verif}/seeded/$SID/meta.json'))['property'])" 2>/dev/null || echo ${SID%%-*})
 CHECKS=${@:-$PROP}
 WT=/tmp/st/$SID.$$
 mkdir -p /tmp/st
 git -C /repo worktree add -q --detach $WT HEAD || exit 9
-P=/verif/seeded/$SID/patch.diff; [ -f /verif/seeded/$SID/patch.head.diff ] && P=/verif/seeded/$SID/patch.head.diff
+P=${VERIF_HOME:-/verif}/seeded/$SID/patch.diff; [ -f ${VERIF_HOME:-/verif}/seeded/$SID/patch.head.diff ] && P=${VERIF_HOME:-/verif}/seeded/$SID/patch.head.diff
 git -C $WT apply $P || { echo "patch does not apply"; git -C /repo worktree remove --force $WT; exit 9; }
 rc=0
 for c in $CHECKS; do
